@@ -516,4 +516,1176 @@ theorem parseSelect_print_aux (proj : Proj) (rels : List String) (ws : List (Con
     simp [this]
   | cols cs => simp
 
+
+/-! ## the index of a selection; a single relation -/
+
+theorem dictGet_dictSet {α} (d : List (Key × α)) (k : Key) (v : α) (k' : Key) :
+    dictGet (dictSet d k v) k' = if k = k' then some v else dictGet d k' := by
+  induction d with
+  | nil => simp [dictSet, dictGet]
+  | cons p rest ih =>
+    obtain ⟨k0, v0⟩ := p
+    by_cases h0 : k0 = k
+    · subst h0
+      by_cases h1 : k0 = k' <;> simp [dictSet, dictGet, h1]
+    · by_cases h1 : k = k'
+      · subst h1
+        simp [dictSet, dictGet, h0, ih]
+      · by_cases h2 : k0 = k'
+        · subst h2; simp [dictSet, dictGet, h0]; exact fun h => absurd h h1
+        · simp [dictSet, dictGet, h0, h1, h2, ih]
+
+theorem dictGet_append {α} (d : List (Key × α)) (k : Key) (v : α) (k' : Key) :
+    dictGet (d ++ [(k, v)]) k' = match dictGet d k' with
+      | some x => some x
+      | none => if k = k' then some v else none := by
+  induction d with
+  | nil => simp [dictGet]
+  | cons p rest ih =>
+    obtain ⟨k0, v0⟩ := p
+    by_cases h0 : k0 = k' <;> simp [dictGet, h0, ih]
+
+theorem dictGet_dictAdd_q {α} (d : List (Key × α)) (c : String) (v : α) (rn c' : String) :
+    dictGet (dictAdd d (.u c) v) (.q rn c') = dictGet d (.q rn c') := by
+  unfold dictAdd
+  split
+  · rfl
+  · rw [dictGet_append]
+    cases dictGet d (.q rn c') <;> simp
+
+/-- after merging the fields `all` (names `all.map name`) of the first relation `name`, a
+qualified key of the index is `name.c` and points at a position holding a field named `c` -/
+def QInv (name : String) (names : List String) (m : Nat) (ix : List (Key × Nat)) : Prop :=
+  ∀ rn c i, dictGet ix (.q rn c) = some i → rn = name ∧ i < m ∧ names[i]? = some c
+
+theorem mergeFold_inv (name : String) (all : List Field) :
+    (fs : List Field) → (n : Nat) → (ix : List (Key × Nat)) → all.drop n = fs →
+    QInv name (all.map (·.name)) n ix →
+    QInv name (all.map (·.name)) all.length ((fs.zipIdx n).foldl (mergeStep name 0) ix)
+  | [], n, ix, hdrop, hinv => by
+    have hn : all.length ≤ n := by
+      have := congrArg List.length hdrop
+      simp at this; omega
+    intro rn c i hi
+    obtain ⟨h1, h2, h3⟩ := hinv rn c i hi
+    refine ⟨h1, ?_, h3⟩
+    have : i < (all.map (·.name)).length := by
+      rcases Nat.lt_or_ge i (all.map (·.name)).length with h | h
+      · exact h
+      · rw [List.getElem?_eq_none h] at h3; cases h3
+    simpa using this
+  | f :: fs, n, ix, hdrop, hinv => by
+    have hf : all[n]? = some f := by
+      have := congrArg (fun l => l[0]?) hdrop
+      simpa [List.getElem?_drop] using this
+    have hdrop' : all.drop (n + 1) = fs := by
+      have := congrArg List.tail hdrop
+      simpa [List.tail_drop] using this
+    simp only [List.zipIdx_cons, List.foldl_cons]
+    apply mergeFold_inv name all fs (n + 1) _ hdrop'
+    intro rn c i hi
+    simp only [mergeStep, Nat.zero_add] at hi
+    rw [dictGet_dictSet] at hi
+    split at hi
+    · rename_i heq
+      cases heq
+      cases hi
+      refine ⟨rfl, by omega, ?_⟩
+      simp [hf]
+    · rw [dictGet_dictAdd_q] at hi
+      obtain ⟨h1, h2, h3⟩ := hinv rn c i hi
+      exact ⟨h1, by omega, h3⟩
+
+
+
+theorem mapM_some_getElem {α β} (f : α → Option β) :
+    (l : List α) → (r : List β) → l.mapM f = some r →
+    ∀ (i : Nat) (x : β), r[i]? = some x → ∃ a, l[i]? = some a ∧ f a = some x
+  | [], r, h => by
+    simp at h; subst h; intro i x hx; simp at hx
+  | a :: l, r, h => by
+    rw [List.mapM_cons] at h
+    cases hfa : f a with
+    | none => simp [hfa] at h
+    | some b =>
+      cases hl : l.mapM f with
+      | none => simp [hfa, hl] at h
+      | some bs =>
+        simp [hfa, hl] at h
+        subst h
+        intro i x hx
+        cases i with
+        | zero => simp at hx; subst hx; exact ⟨a, by simp, hfa⟩
+        | succ i =>
+          simp at hx
+          obtain ⟨a', h1, h2⟩ := mapM_some_getElem f l bs hl i x hx
+          exact ⟨a', by simpa using h1, h2⟩
+
+/-- the cell of column `c` in a stored row of `rel` -/
+def cellOf (rel : Rel) (row : List Cell) (c : String) : Cell :=
+  match rel.fieldIdx? c with
+  | some i => row.getD i noCell
+  | none => noCell
+
+theorem fieldIdx_name (rel : Rel) (col : String) (j : Nat) (h : rel.fieldIdx? col = some j) :
+    ∀ d, (rel.fields.getD j d).name = col := by
+  intro d
+  unfold Rel.fieldIdx? at h
+  rw [List.findIdx?_eq_some_iff_getElem] at h
+  obtain ⟨hj, hp, _⟩ := h
+  rw [List.getD_eq_getElem?_getD, List.getElem?_eq_getElem hj]
+  simpa using hp
+
+/-- position `i` of a picked row holds the source row's cell of the column named at `i` -/
+theorem pick_cellOf (rel : Rel) (cols : List String) (indices : List Nat)
+    (hm : cols.mapM rel.fieldIdx? = some indices) (d : Field) (i : Nat) (c : String)
+    (hn : ((indices.map (fun i => rel.fields.getD i d)).map (·.name))[i]? = some c) (row : List Cell) :
+    (pick indices row).getD i noCell = cellOf rel row c := by
+  simp only [List.map_map, List.getElem?_map, Option.map_eq_some_iff] at hn
+  obtain ⟨j, hj, hname⟩ := hn
+  obtain ⟨col, _, hcol⟩ := mapM_some_getElem _ cols indices hm i j hj
+  have : col = c := by
+    have := fieldIdx_name rel col j hcol d
+    simp only [Function.comp] at hname
+    rw [← this, hname]
+  subst this
+  unfold cellOf pick
+  rw [hcol, List.getD_eq_getElem?_getD, List.getElem?_map, hj]
+  rfl
+
+
+
+mutual
+/-- a resolved condition evaluated directly on a stored row of `rel` (no index, no join) -/
+def evalSrc (rx : List Char → List Char → Bool) (rel : Rel) (row : List Cell) : Cond QName → Bool
+  | .leaf op q l => evalLeaf rx op (cellOf rel row q.2).val l
+  | .not c => !evalSrc rx rel row c
+  | .and cs => evalSrcAll rx rel row cs
+  | .or cs => evalSrcAny rx rel row cs
+def evalSrcAll (rx : List Char → List Char → Bool) (rel : Rel) (row : List Cell) : List (Cond QName) → Bool
+  | [] => true
+  | c :: cs => evalSrc rx rel row c && evalSrcAll rx rel row cs
+def evalSrcAny (rx : List Char → List Char → Bool) (rel : Rel) (row : List Cell) : List (Cond QName) → Bool
+  | [] => false
+  | c :: cs => evalSrc rx rel row c || evalSrcAny rx rel row cs
+end
+
+def evalSrcOpt (rx : List Char → List Char → Bool) (rel : Rel) (row : List Cell) : Option (Cond QName) → Bool
+  | none => true
+  | some c => evalSrc rx rel row c
+
+def condFieldsOpt : Option (Cond QName) → List QName
+  | none => []
+  | some c => condFields c
+
+/-- every qualified key of the index points at the position of that column's cell -/
+def Points (ix : List (Key × Nat)) (indices : List Nat) (rel : Rel) : Prop :=
+  ∀ rn c i, dictGet ix (.q rn c) = some i →
+    rn = rel.name ∧ ∀ row, (pick indices row).getD i noCell = cellOf rel row c
+
+mutual
+theorem evalCond_evalSrc (rx : List Char → List Char → Bool) (ix : List (Key × Nat)) (indices : List Nat)
+    (rel : Rel) (H : Points ix indices rel) :
+    (c : Cond QName) → (ci : Cond Nat) → indexCond ix c = .ok ci →
+    ∀ row, evalCond rx (pick indices row) ci = evalSrc rx rel row c
+  | .leaf op q l, ci, h => by
+    simp only [indexCond] at h
+    split at h
+    · cases h
+    · rename_i i hi
+      cases h
+      intro row
+      simp only [evalCond, evalSrc, (H q.1 q.2 i hi).2 row]
+  | .not c, ci, h => by
+    simp only [indexCond] at h
+    split at h
+    · cases h
+    · rename_i c' hc
+      cases h
+      intro row
+      simp only [evalCond, evalSrc, evalCond_evalSrc rx ix indices rel H c c' hc row]
+  | .and cs, ci, h => by
+    simp only [indexCond] at h
+    split at h
+    · cases h
+    · rename_i cs' hc
+      cases h
+      intro row
+      simp only [evalCond, evalSrc, (evalConds_evalSrc rx ix indices rel H cs cs' hc row).1]
+  | .or cs, ci, h => by
+    simp only [indexCond] at h
+    split at h
+    · cases h
+    · rename_i cs' hc
+      cases h
+      intro row
+      simp only [evalCond, evalSrc, (evalConds_evalSrc rx ix indices rel H cs cs' hc row).2]
+theorem evalConds_evalSrc (rx : List Char → List Char → Bool) (ix : List (Key × Nat)) (indices : List Nat)
+    (rel : Rel) (H : Points ix indices rel) :
+    (cs : List (Cond QName)) → (cis : List (Cond Nat)) → indexConds ix cs = .ok cis →
+    ∀ row, evalAll rx (pick indices row) cis = evalSrcAll rx rel row cs
+      ∧ evalAny rx (pick indices row) cis = evalSrcAny rx rel row cs
+  | [], cis, h => by
+    simp only [indexConds] at h
+    cases h
+    intro row
+    simp [evalAll, evalAny, evalSrcAll, evalSrcAny]
+  | c :: cs, cis, h => by
+    simp only [indexConds] at h
+    split at h
+    · cases h
+    · rename_i c' hc
+      split at h
+      · cases h
+      · rename_i cs' hcs
+        cases h
+        intro row
+        have h1 := evalCond_evalSrc rx ix indices rel H c c' hc row
+        have h2 := evalConds_evalSrc rx ix indices rel H cs cs' hcs row
+        simp only [evalAll, evalAny, evalSrcAll, evalSrcAny, h1, h2.1, h2.2, and_self]
+end
+
+theorem proj_pick (ix : List (Key × Nat)) (indices : List Nat) (rel : Rel) (H : Points ix indices rel) :
+    (proj : List QName) → (pidx : List Nat) →
+    proj.mapM (fun q => dictGet ix (.q q.1 q.2)) = some pidx →
+    ∀ row, pick pidx (pick indices row) = proj.map (fun qn => cellOf rel row qn.2)
+  | [], pidx, h => by
+    simp at h; subst h; intro row; simp [pick]
+  | q :: proj, pidx, h => by
+    rw [List.mapM_cons] at h
+    cases hq : dictGet ix (.q q.1 q.2) with
+    | none => simp [hq] at h
+    | some i =>
+      cases hl : proj.mapM (fun q => dictGet ix (.q q.1 q.2)) with
+      | none => simp [hq, hl] at h
+      | some is =>
+        simp [hq, hl] at h
+        subst h
+        intro row
+        have ih := proj_pick ix indices rel H proj is hl row
+        simp only [pick, List.map_cons] at ih ⊢
+        rw [ih]
+        congr 1
+        exact (H q.1 q.2 i hq).2 row
+
+
+
+/-- what a successful `select` went through -/
+theorem select_inv {rx : List Char → List Char → Bool} {db : DB} {q : Query} {res : Result}
+    (h : select rx db q = .ok res) :
+    ∃ proj cond plan sel rows, db.wf = true ∧ resolveProj db q = .ok proj ∧ resolveQCond db q = .ok cond ∧
+      planJoins db proj (condFieldsOpt cond) q.rels = .ok plan ∧
+      runJoins db Sel.empty plan.joins = .ok sel ∧ finish rx sel proj cond = .ok rows ∧
+      res = { ordered := plan.ordered, rows := rows } := by
+  unfold select at h
+  split at h
+  · cases h
+  · rename_i hwf
+    split at h
+    · cases h
+    · rename_i proj hproj
+      split at h
+      · cases h
+      · rename_i cond hcond
+        simp only at h
+        split at h
+        · cases h
+        · rename_i plan hplan
+          split at h
+          · cases h
+          · rename_i sel hsel
+            split at h
+            · cases h
+            · rename_i rows hrows
+              cases h
+              refine ⟨proj, cond, plan, sel, rows, by simpa using hwf, hproj, hcond, ?_, hsel, hrows, rfl⟩
+              cases cond <;> exact hplan
+
+theorem firstJoin_inv {db : DB} {name : String} {cols : List String} {sel : Sel}
+    (h : joinStep db Sel.empty (name, cols) = .ok sel) :
+    ∃ rel indices, db.rel? name = some rel ∧ cols.mapM rel.fieldIdx? = some indices ∧
+      sel.data = rel.rows.map (pick indices) ∧ Points sel.index indices rel := by
+  unfold joinStep at h
+  simp only [Sel.empty, List.contains_nil, Bool.false_eq_true, ↓reduceIte] at h
+  split at h
+  · cases h
+  · rename_i rel hrel
+    split at h
+    · cases h
+    · rename_i indices hidx
+      simp only [List.isEmpty_nil, ↓reduceIte] at h
+      cases h
+      refine ⟨rel, indices, hrel, hidx, rfl, ?_⟩
+      intro rn c i hi
+      simp only [mergeFields, List.length_nil, List.foldl_nil] at hi
+      have inv := mergeFold_inv name (indices.map (fun i => rel.fields.getD i ⟨"", .string, false⟩))
+        (indices.map (fun i => rel.fields.getD i ⟨"", .string, false⟩)) 0 [] rfl
+        (by intro rn c i hi; simp [dictGet] at hi)
+      obtain ⟨hrn, _, hn⟩ := inv rn c i hi
+      have hname : rel.name = name := by
+        unfold DB.rel? at hrel
+        have := List.find?_some hrel
+        simpa using this
+      exact ⟨by rw [hrn, hname], fun row => pick_cellOf rel cols indices hidx _ i c hn row⟩
+
+
+
+theorem proj_rel (ix : List (Key × Nat)) (indices : List Nat) (rel : Rel) (H : Points ix indices rel) :
+    (proj : List QName) → (pidx : List Nat) →
+    proj.mapM (fun q => dictGet ix (.q q.1 q.2)) = some pidx → ∀ qn ∈ proj, qn.1 = rel.name
+  | [], _, _ => by intro qn hq; simp at hq
+  | q :: proj, pidx, h => by
+    rw [List.mapM_cons] at h
+    cases hq : dictGet ix (.q q.1 q.2) with
+    | none => simp [hq] at h
+    | some i =>
+      cases hl : proj.mapM (fun q => dictGet ix (.q q.1 q.2)) with
+      | none => simp [hq, hl] at h
+      | some is =>
+        intro qn hqn
+        rcases List.mem_cons.mp hqn with e | e
+        · rw [e]; exact (H q.1 q.2 i hq).1
+        · exact proj_rel ix indices rel H proj is hl qn e
+
+theorem finish_single (rx : List Char → List Char → Bool) (sel : Sel) (indices : List Nat) (rel : Rel)
+    (hdata : sel.data = rel.rows.map (pick indices)) (H : Points sel.index indices rel)
+    (proj : List QName) (cond : Option (Cond QName)) (rows : List (List (Option (List Char))))
+    (h : finish rx sel proj cond = .ok rows) :
+    (∀ qn ∈ proj, qn.1 = rel.name) ∧
+    rows = (rel.rows.filter (fun r => evalSrcOpt rx rel r cond)).map
+            (fun r => proj.map (fun qn => (cellOf rel r qn.2).raw)) := by
+  unfold finish at h
+  split at h
+  · cases h
+  · rename_i pidx hp
+    refine ⟨proj_rel sel.index indices rel H proj pidx hp, ?_⟩
+    have hpick := proj_pick sel.index indices rel H proj pidx hp
+    cases cond with
+    | none =>
+      simp only at h
+      cases h
+      have hf : rel.rows.filter (fun r => evalSrcOpt rx rel r none) = rel.rows := by
+        apply List.filter_eq_self.mpr
+        intro r _; rfl
+      rw [hf]
+      simp only [hdata, List.map_map]
+      apply List.map_congr_left
+      intro r _
+      simp only [Function.comp, hpick r, List.map_map]
+      rfl
+    | some c =>
+      simp only at h
+      split at h
+      · cases h
+      · rename_i ci hci
+        cases h
+        have hev := evalCond_evalSrc rx sel.index indices rel H c ci hci
+        simp only [hdata, List.filter_map, List.map_map, evalSrcOpt]
+        have : ((fun row => evalCond rx row ci) ∘ pick indices) = fun r => evalSrc rx rel r c := by
+          funext r; exact hev r
+        rw [this]
+        apply List.map_congr_left
+        intro r _
+        simp only [Function.comp, hpick r, List.map_map]
+        rfl
+
+theorem select_single_relation_aux (rx : List Char → List Char → Bool) (db : DB) (q : Query) (res : Result)
+    (h : select rx db q = .ok res) :
+    ∃ proj cond plan, resolveProj db q = .ok proj ∧ resolveQCond db q = .ok cond ∧
+      planJoins db proj (condFieldsOpt cond) q.rels = .ok plan ∧
+      ∀ name cols, plan.joins = [(name, cols)] →
+        ∃ rel, db.rel? name = some rel ∧ (∀ qn ∈ proj, qn.1 = name) ∧
+          res.rows = (rel.rows.filter (fun r => evalSrcOpt rx rel r cond)).map
+            (fun r => proj.map (fun qn => (cellOf rel r qn.2).raw)) := by
+  obtain ⟨proj, cond, plan, sel, rows, _, hproj, hcond, hplan, hsel, hrows, hres⟩ := select_inv h
+  refine ⟨proj, cond, plan, hproj, hcond, hplan, ?_⟩
+  intro name cols hj
+  rw [hj] at hsel
+  simp only [runJoins] at hsel
+  split at hsel
+  · cases hsel
+  · rename_i sel' hstep
+    cases hsel
+    obtain ⟨rel, indices, hrel, _, hdata, H⟩ := firstJoin_inv hstep
+    have hname : rel.name = name := by
+      unfold DB.rel? at hrel
+      have := List.find?_some hrel
+      simpa using this
+    have hf := finish_single rx sel indices rel hdata H proj cond rows hrows
+    refine ⟨rel, hrel, by rw [← hname]; exact hf.1, ?_⟩
+    rw [hres]
+    exact hf.2
+
+/-! ## each join step as a relational comprehension -/
+
+/-- do the joined row `l` and the stored row `r` of `rel` carry equal cast values in every column
+named in `on`? (left: the selection's column of that unqualified name; right: `rel`'s column) -/
+def agreeOn (sel : Sel) (rel : Rel) (on : List String) (l r : List Cell) : Bool :=
+  on.all (fun k => match dictGet sel.index (.u k), rel.fieldIdx? k with
+    | some i, some j => decide ((l.getD i noCell).val = (r.getD j noCell).val)
+    | _, _ => false)
+
+theorem keyOf_agree (sel : Sel) (rel : Rel) (l r : List Cell) :
+    (on : List String) → (∀ k ∈ on, (dictGet sel.index (.u k)).isSome) → (∀ k ∈ on, (rel.fieldIdx? k).isSome) →
+    decide (keyOf (on.filterMap rel.fieldIdx?) r = keyOf (on.filterMap (fun n => dictGet sel.index (.u n))) l)
+      = agreeOn sel rel on l r
+  | [], _, _ => by simp [agreeOn, keyOf, pick]
+  | k :: on, hL, hR => by
+    have ih := keyOf_agree sel rel l r on (fun x hx => hL x (by simp [hx])) (fun x hx => hR x (by simp [hx]))
+    have h1 := hL k (by simp)
+    have h2 := hR k (by simp)
+    cases hi : dictGet sel.index (.u k) with
+    | none => simp [hi] at h1
+    | some i =>
+      cases hj : rel.fieldIdx? k with
+      | none => simp [hj] at h2
+      | some j =>
+        simp only [agreeOn, List.all_cons, hi, hj] at ih ⊢
+        rw [← ih]
+        simp only [List.filterMap_cons, hi, hj, keyOf, pick, List.map_cons, List.cons.injEq, Bool.decide_and]
+        congr 1
+        exact decide_eq_decide.mpr ⟨Eq.symm, Eq.symm⟩
+
+
+
+/-- `_join` with the hash join written as the relational comprehension: keep the pairs
+(joined row, stored row) that agree on every shared key, in (left, right) order -/
+def nestedStep (db : DB) (sel : Sel) (j : String × List String) : Except Err Sel :=
+  if sel.joined.contains j.1 then .error .tsqlError else
+  match db.rel? j.1 with
+  | none => .error .keyError
+  | some rel =>
+    match j.2.mapM rel.fieldIdx? with
+    | none => .error .keyError
+    | some indices =>
+      let fields := indices.map (fun i => rel.fields.getD i ⟨"", .string, false⟩)
+      if sel.joined.isEmpty then
+        .ok (mergeFields { sel with data := rel.rows.map (pick indices) } j.1 [] fields)
+      else
+        let on := sharedKeys sel fields
+        let fields' := fields.filter (fun f => !on.contains f.name)
+        if on.isEmpty then .error .tsqlError else
+        let rV := fields'.filterMap (fun f => rel.fieldIdx? f.name)
+        let data := sel.data.flatMap (fun l =>
+          (rel.rows.filter (fun r => agreeOn sel rel on l r)).map (fun r => l ++ pick rV r))
+        .ok (mergeFields { sel with data := data } j.1 on fields')
+
+def nestedJoins (db : DB) : Sel → List (String × List String) → Except Err Sel
+  | sel, [] => .ok sel
+  | sel, j :: js =>
+    match nestedStep db sel j with
+    | .error e => .error e
+    | .ok sel' => nestedJoins db sel' js
+
+theorem mapM_some_mem {α β} (f : α → Option β) (l : List α) (r : List β) (h : l.mapM f = some r) :
+    ∀ x ∈ r, ∃ a ∈ l, f a = some x := by
+  intro x hx
+  obtain ⟨i, hi⟩ := List.mem_iff_getElem?.mp hx
+  obtain ⟨a, ha, hfa⟩ := mapM_some_getElem f l r h i x hi
+  exact ⟨a, List.mem_iff_getElem?.mpr ⟨i, ha⟩, hfa⟩
+
+theorem sharedKeys_right (sel : Sel) (rel : Rel) (cols : List String) (indices : List Nat)
+    (hm : cols.mapM rel.fieldIdx? = some indices) (d : Field) :
+    ∀ k ∈ sharedKeys sel (indices.map (fun i => rel.fields.getD i d)), (rel.fieldIdx? k).isSome := by
+  intro k hk
+  simp only [sharedKeys, List.mem_map, List.mem_filter] at hk
+  obtain ⟨f, ⟨⟨jx, hjx, hf⟩, _⟩, hname⟩ := hk
+  obtain ⟨col, _, hcol⟩ := mapM_some_mem _ cols indices hm jx hjx
+  have := fieldIdx_name rel col jx hcol d
+  rw [hf, hname] at this
+  rw [this, hcol]
+  rfl
+
+theorem sharedKeys_left (sel : Sel) (fields : List Field) :
+    ∀ k ∈ sharedKeys sel fields, (dictGet sel.index (.u k)).isSome := by
+  intro k hk
+  simp only [sharedKeys, List.mem_map, List.mem_filter, Bool.and_eq_true] at hk
+  obtain ⟨f, ⟨_, _, h⟩, hname⟩ := hk
+  rw [← hname]; exact h
+
+theorem joinStep_eq_nestedStep (db : DB) (sel : Sel) (j : String × List String) :
+    joinStep db sel j = nestedStep db sel j := by
+  unfold joinStep nestedStep
+  by_cases hc : sel.joined.contains j.1 = true
+  · simp only [hc, if_true]
+  · simp only [hc]
+    cases hrel : db.rel? j.1 with
+    | none => rfl
+    | some rel =>
+      simp only
+      cases hm : j.2.mapM rel.fieldIdx? with
+      | none => rfl
+      | some indices =>
+        simp only
+        by_cases he : sel.joined.isEmpty = true
+        · simp only [he, if_true]
+        · simp only [he]
+          by_cases hon : (sharedKeys sel (indices.map (fun i => rel.fields.getD i ⟨"", .string, false⟩))).isEmpty = true
+          · simp only [hon, if_true]
+          · simp only [hon]
+            have key : ∀ l r, decide (keyOf (List.filterMap rel.fieldIdx?
+                  (sharedKeys sel (indices.map (fun i => rel.fields.getD i ⟨"", .string, false⟩)))) r
+                = keyOf (List.filterMap (fun n => dictGet sel.index (.u n))
+                  (sharedKeys sel (indices.map (fun i => rel.fields.getD i ⟨"", .string, false⟩)))) l)
+                = agreeOn sel rel (sharedKeys sel (indices.map (fun i => rel.fields.getD i ⟨"", .string, false⟩))) l r :=
+              fun l r => keyOf_agree sel rel l r _
+                (sharedKeys_left sel _) (sharedKeys_right sel rel j.2 indices hm _)
+            simp only [hashJoin_eq_nested_aux, key]
+
+theorem runJoins_eq_nestedJoins (db : DB) : (sel : Sel) → (js : List (String × List String)) →
+    runJoins db sel js = nestedJoins db sel js
+  | sel, [] => rfl
+  | sel, j :: js => by
+    simp only [runJoins, nestedJoins, joinStep_eq_nestedStep]
+    cases nestedStep db sel j with
+    | error e => rfl
+    | ok sel' => exact runJoins_eq_nestedJoins db sel' js
+
+
+/-! ## `*` -/
+
+/-- what one relation contributes to `*`: (a) `keys_added` only grows and stays duplicate-free,
+(b) every non-key column is emitted, (c) every key name is in `keys_added` afterwards,
+(d) every newly added key name was emitted for this relation, (e) the number of emitted
+columns is the number of non-key columns plus the number of newly added key names -/
+theorem projFields_spec (name : String) :
+    (fs : List Field) → (ka : List String) → ka.Nodup →
+    let p := projFields name fs ka
+    p.2.Nodup ∧ (∀ k ∈ ka, k ∈ p.2) ∧
+    (∀ f ∈ fs, f.isKey = false → (name, f.name) ∈ p.1) ∧
+    (∀ f ∈ fs, f.isKey = true → f.name ∈ p.2) ∧
+    (∀ k ∈ p.2, k ∈ ka ∨ (name, k) ∈ p.1) ∧
+    (∀ k ∈ p.2, k ∈ ka ∨ ∃ f ∈ fs, f.isKey = true ∧ f.name = k) ∧
+    p.1.length + ka.length = (fs.filter (fun f => !f.isKey)).length + p.2.length
+  | [], ka, hka => by simp [projFields, hka]
+  | f :: fs, ka, hka => by
+    by_cases hk : f.isKey = true
+    · by_cases hc : ka.contains f.name = true
+      · have ih := projFields_spec name fs ka hka
+        have hmem : f.name ∈ ka := by simpa using hc
+        simp only [projFields, hk, hc, Bool.not_true, Bool.false_eq_true, ↓reduceIte, List.filter_cons] at ih ⊢
+        obtain ⟨h1, h2, h3, h4, h5, h6, h7⟩ := ih
+        refine ⟨h1, h2, ?_, ?_, h5, ?_, h7⟩
+        · intro g hg hgk
+          rcases List.mem_cons.mp hg with e | e
+          · subst e; rw [hk] at hgk; cases hgk
+          · exact h3 g e hgk
+        · intro g hg hgk
+          rcases List.mem_cons.mp hg with e | e
+          · subst e; exact h2 _ hmem
+          · exact h4 g e hgk
+        · intro k hk'
+          rcases h6 k hk' with e | ⟨g, hg, e1, e2⟩
+          · exact Or.inl e
+          · exact Or.inr ⟨g, List.mem_cons_of_mem _ hg, e1, e2⟩
+      · have hnm : f.name ∉ ka := by simpa using hc
+        have hka' : (ka ++ [f.name]).Nodup := by
+          rw [List.nodup_append]
+          exact ⟨hka, by simp, by intro a ha b hb; simp at hb; subst hb; exact fun e => hnm (e ▸ ha)⟩
+        have ih := projFields_spec name fs (ka ++ [f.name]) hka'
+        simp only [projFields, hk, hc, Bool.not_true, Bool.false_eq_true, ↓reduceIte, List.filter_cons,
+          List.length_cons, List.length_append, List.length_nil] at ih ⊢
+        obtain ⟨h1, h2, h3, h4, h5, h6, h7⟩ := ih
+        refine ⟨h1, fun k hk' => h2 k (by simp [hk']), ?_, ?_, ?_, ?_, by omega⟩
+        · intro g hg hgk
+          rcases List.mem_cons.mp hg with e | e
+          · subst e; rw [hk] at hgk; cases hgk
+          · exact List.mem_cons_of_mem _ (h3 g e hgk)
+        · intro g hg hgk
+          rcases List.mem_cons.mp hg with e | e
+          · subst e; exact h2 _ (by simp)
+          · exact h4 g e hgk
+        · intro k hk'
+          rcases h5 k hk' with e | e
+          · rcases List.mem_append.mp e with e | e
+            · exact Or.inl e
+            · simp at e; subst e; exact Or.inr (by simp)
+          · exact Or.inr (List.mem_cons_of_mem _ e)
+        · intro k hk'
+          rcases h6 k hk' with e | ⟨g, hg, e1, e2⟩
+          · rcases List.mem_append.mp e with e | e
+            · exact Or.inl e
+            · simp at e; subst e; exact Or.inr ⟨f, by simp, hk, rfl⟩
+          · exact Or.inr ⟨g, List.mem_cons_of_mem _ hg, e1, e2⟩
+    · have hk' : f.isKey = false := by simpa using hk
+      have ih := projFields_spec name fs ka hka
+      simp only [projFields, hk', Bool.not_false, ↓reduceIte, List.filter_cons, List.length_cons] at ih ⊢
+      obtain ⟨h1, h2, h3, h4, h5, h6, h7⟩ := ih
+      refine ⟨h1, h2, ?_, ?_, ?_, ?_, by omega⟩
+      · intro g hg hgk
+        rcases List.mem_cons.mp hg with e | e
+        · subst e; simp
+        · exact List.mem_cons_of_mem _ (h3 g e hgk)
+      · intro g hg hgk
+        rcases List.mem_cons.mp hg with e | e
+        · subst e; rw [hk'] at hgk; cases hgk
+        · exact h4 g e hgk
+      · intro k hkk
+        rcases h5 k hkk with e | e
+        · exact Or.inl e
+        · exact Or.inr (List.mem_cons_of_mem _ e)
+      · intro k hkk
+        rcases h6 k hkk with e | ⟨g, hg, e1, e2⟩
+        · exact Or.inl e
+        · exact Or.inr ⟨g, List.mem_cons_of_mem _ hg, e1, e2⟩
+
+
+
+/-- number of non-key columns of the named relations -/
+def nonKeyCount (db : DB) : List String → Nat
+  | [] => 0
+  | name :: rest =>
+    (match db.rel? name with
+      | some r => (r.fields.filter (fun f => !f.isKey)).length
+      | none => 0) + nonKeyCount db rest
+
+/-- `k` is the name of a key column of one of the named relations -/
+def IsKeyOf (db : DB) (rels : List String) (k : String) : Prop :=
+  ∃ name ∈ rels, ∃ rel, db.rel? name = some rel ∧ ∃ f ∈ rel.fields, f.isKey = true ∧ f.name = k
+
+theorem projectAllAux_spec (db : DB) :
+    (rels : List String) → (ka : List String) → (qs : List QName) → ka.Nodup →
+    projectAllAux db rels ka = .ok qs →
+    (∀ name ∈ rels, ∀ rel, db.rel? name = some rel → ∀ f ∈ rel.fields, f.isKey = false → (name, f.name) ∈ qs) ∧
+    ∃ kaF : List String, kaF.Nodup ∧ (∀ k ∈ ka, k ∈ kaF) ∧
+      (∀ k, IsKeyOf db rels k → k ∈ kaF) ∧
+      (∀ k ∈ kaF, k ∈ ka ∨ (IsKeyOf db rels k ∧ ∃ name ∈ rels, (name, k) ∈ qs)) ∧
+      qs.length + ka.length = nonKeyCount db rels + kaF.length
+  | [], ka, qs, hka, h => by
+    simp only [projectAllAux] at h
+    cases h
+    refine ⟨by simp, ka, hka, fun k hk => hk, ?_, fun k hk => Or.inl hk, by simp [nonKeyCount]⟩
+    intro k ⟨name, hn, _⟩
+    simp at hn
+  | name :: rest, ka, qs, hka, h => by
+    simp only [projectAllAux] at h
+    split at h
+    · cases h
+    · rename_i r hr
+      split at h
+      · cases h
+      · rename_i more hmore
+        cases h
+        obtain ⟨p1, p2, p3, p4, p5, p6, p7⟩ := projFields_spec name r.fields ka hka
+        obtain ⟨q1, kaF, q2, q3, q4, q5, q6⟩ :=
+          projectAllAux_spec db rest (projFields name r.fields ka).2 more p1 hmore
+        refine ⟨?_, kaF, q2, fun k hk => q3 k (p2 k hk), ?_, ?_, ?_⟩
+        · intro n hn rel hrel f hf hfk
+          rcases List.mem_cons.mp hn with e | e
+          · subst e
+            rw [hr] at hrel; cases hrel
+            exact List.mem_append_left _ (p3 f hf hfk)
+          · exact List.mem_append_right _ (q1 n e rel hrel f hf hfk)
+        · intro k ⟨n, hn, rel, hrel, f, hf, hfk, hfn⟩
+          rcases List.mem_cons.mp hn with e | e
+          · subst e
+            rw [hr] at hrel; cases hrel
+            exact q3 k (hfn ▸ p4 f hf hfk)
+          · exact q4 k ⟨n, e, rel, hrel, f, hf, hfk, hfn⟩
+        · intro k hk
+          rcases q5 k hk with e | ⟨⟨n, hn, rest'⟩, n', hn', hq⟩
+          · rcases p6 k e with e'' | ⟨f, hf, hfk, hfn⟩
+            · exact Or.inl e''
+            · rcases p5 k e with e' | e'
+              · exact Or.inl e'
+              · exact Or.inr ⟨⟨name, by simp, r, hr, f, hf, hfk, hfn⟩, name, by simp, List.mem_append_left _ e'⟩
+          · exact Or.inr ⟨⟨n, List.mem_cons_of_mem _ hn, rest'⟩, n', List.mem_cons_of_mem _ hn', List.mem_append_right _ hq⟩
+        · simp only [List.length_append, nonKeyCount, hr]
+          omega
+
+
+/-! ## what the index of a joined selection denotes (any number of relations) -/
+
+theorem dictGet_dictAdd {α} (d : List (Key × α)) (k : Key) (v : α) (k' : Key) (p : α)
+    (h : dictGet (dictAdd d k v) k' = some p) : dictGet d k' = some p ∨ (k' = k ∧ p = v) := by
+  unfold dictAdd at h
+  split at h
+  · exact Or.inl h
+  · rw [dictGet_append] at h
+    cases hd : dictGet d k' with
+    | some x => rw [hd] at h; exact Or.inl h
+    | none =>
+      rw [hd] at h
+      simp only at h
+      split at h
+      · rename_i e; cases h; exact Or.inr ⟨e.symm, rfl⟩
+      · cases h
+
+/-- where an entry of the index after the first loop of `_merge_fields` comes from -/
+def Origin1 (ix0 : List (Key × Nat)) (name : String) (offset : Nat) (all : List Field) (m : Nat)
+    (key : Key) (p : Nat) : Prop :=
+  dictGet ix0 key = some p ∨
+  ∃ i f, i < m ∧ all[i]? = some f ∧ p = offset + i ∧ (key = .u f.name ∨ key = .q name f.name)
+
+theorem mergeFold_origin (ix0 : List (Key × Nat)) (name : String) (offset : Nat) (all : List Field) :
+    (fs : List Field) → (n : Nat) → (ix : List (Key × Nat)) → all.drop n = fs →
+    (∀ key p, dictGet ix key = some p → Origin1 ix0 name offset all n key p) →
+    ∀ key p, dictGet ((fs.zipIdx n).foldl (mergeStep name offset) ix) key = some p →
+      Origin1 ix0 name offset all all.length key p
+  | [], n, ix, hdrop, hinv => by
+    intro key p h
+    simp only [List.zipIdx_nil, List.foldl_nil] at h
+    rcases hinv key p h with e | ⟨i, f, hi, hf, hp, hk⟩
+    · exact Or.inl e
+    · refine Or.inr ⟨i, f, ?_, hf, hp, hk⟩
+      rcases Nat.lt_or_ge i all.length with h' | h'
+      · exact h'
+      · rw [List.getElem?_eq_none h'] at hf; cases hf
+  | f :: fs, n, ix, hdrop, hinv => by
+    have hf : all[n]? = some f := by
+      have := congrArg (fun l => l[0]?) hdrop
+      simpa [List.getElem?_drop] using this
+    have hdrop' : all.drop (n + 1) = fs := by
+      have := congrArg List.tail hdrop
+      simpa [List.tail_drop] using this
+    simp only [List.zipIdx_cons, List.foldl_cons]
+    apply mergeFold_origin ix0 name offset all fs (n + 1) _ hdrop'
+    intro key p h
+    simp only [mergeStep] at h
+    rw [dictGet_dictSet] at h
+    split at h
+    · rename_i e
+      cases h
+      exact Or.inr ⟨n, f, by omega, hf, rfl, Or.inr e.symm⟩
+    · rcases dictGet_dictAdd _ _ _ _ _ h with e | ⟨e1, e2⟩
+      · rcases hinv key p e with e' | ⟨i, g, hi, hg, hp, hk⟩
+        · exact Or.inl e'
+        · exact Or.inr ⟨i, g, by omega, hg, hp, hk⟩
+      · exact Or.inr ⟨n, f, by omega, hf, e2, Or.inl e1⟩
+
+/-- where an entry of the index after `_merge_fields` comes from: an old entry, a new column
+(`offset + i`), or a shared key aliased to the selection's column of that name -/
+def Origin (ix0 : List (Key × Nat)) (name : String) (offset : Nat) (all : List Field) (on : List String)
+    (key : Key) (p : Nat) : Prop :=
+  Origin1 ix0 name offset all all.length key p ∨
+  ∃ k ∈ on, key = .q name k ∧ Origin1 ix0 name offset all all.length (.u k) p
+
+theorem onFold_origin (ix0 : List (Key × Nat)) (name : String) (offset : Nat) (all : List Field)
+    (on0 : List String) :
+    (on : List String) → (∀ k ∈ on, k ∈ on0) → (ix : List (Key × Nat)) →
+    (∀ key p, dictGet ix key = some p → Origin ix0 name offset all on0 key p) →
+    ∀ key p, dictGet (on.foldl (fun ix nm => match dictGet ix (.u nm) with
+        | some i => dictSet ix (.q name nm) i
+        | none => ix) ix) key = some p → Origin ix0 name offset all on0 key p
+  | [], _, ix, hinv => by simpa using hinv
+  | k :: on, hsub, ix, hinv => by
+    simp only [List.foldl_cons]
+    apply onFold_origin ix0 name offset all on0 on (fun x hx => hsub x (by simp [hx]))
+    intro key p h
+    split at h
+    · rename_i i hi
+      rw [dictGet_dictSet] at h
+      split at h
+      · rename_i e
+        cases h
+        rcases hinv (.u k) p hi with o | ⟨k', _, e', _⟩
+        · exact Or.inr ⟨k, hsub k (by simp), e.symm, o⟩
+        · cases e'
+      · exact hinv key p h
+    · exact hinv key p h
+
+theorem mergeFields_origin (sel : Sel) (name : String) (on : List String) (fields : List Field) :
+    ∀ key p, dictGet (mergeFields sel name on fields).index key = some p →
+      Origin sel.index name sel.fields.length fields on key p := by
+  intro key p h
+  simp only [mergeFields] at h
+  refine onFold_origin sel.index name sel.fields.length fields on on (fun _ h => h) _ ?_ key p h
+  intro key p h
+  exact Or.inl (mergeFold_origin sel.index name sel.fields.length fields fields 0 sel.index rfl
+    (fun key p h => Or.inl h) key p h)
+
+
+
+/-- each joined row is justified by one stored row per joined relation: every qualified entry
+`n.c ↦ p` of the index points at a cell whose cast value is that of column `c` in the witness row
+of relation `n` -/
+def Witnessed (db : DB) (index : List (Key × Nat)) (row : List Cell) : Prop :=
+  ∃ w : String → List Cell, ∀ n c p, dictGet index (.q n c) = some p →
+    ∃ rel, db.rel? n = some rel ∧ w n ∈ rel.rows ∧ (row.getD p noCell).val = (cellOf rel (w n) c).val
+
+structure SelInv (db : DB) (sel : Sel) : Prop where
+  fresh : sel.joined = [] → sel.fields = [] ∧ sel.index = []
+  len : ∀ row ∈ sel.data, row.length = sel.fields.length
+  bound : ∀ key p, dictGet sel.index key = some p → p < sel.fields.length
+  joined : ∀ n c p, dictGet sel.index (.q n c) = some p → n ∈ sel.joined
+  wit : ∀ row ∈ sel.data, Witnessed db sel.index row
+
+theorem getD_append_left' (l x : List Cell) (p : Nat) (h : p < l.length) :
+    (l ++ x).getD p noCell = l.getD p noCell := by
+  simp [List.getD_eq_getElem?_getD, List.getElem?_append_left h]
+
+theorem getD_append_right' (l x : List Cell) (i : Nat) :
+    (l ++ x).getD (l.length + i) noCell = x.getD i noCell := by
+  simp [List.getD_eq_getElem?_getD, List.getElem?_append_right]
+
+theorem pick_getD (rV : List Nat) (r : List Cell) (i j : Nat) (h : rV[i]? = some j) :
+    (pick rV r).getD i noCell = r.getD j noCell := by
+  simp [pick, List.getD_eq_getElem?_getD, List.getElem?_map, h]
+
+theorem cellOf_eq (rel : Rel) (r : List Cell) (c : String) (j : Nat) (h : rel.fieldIdx? c = some j) :
+    cellOf rel r c = r.getD j noCell := by
+  simp [cellOf, h]
+
+/-- the invariant is preserved by adding a relation's columns to the selection -/
+theorem merge_inv (db : DB) (sel : Sel) (L : List (List Cell))
+    (hbound : ∀ key p, dictGet sel.index key = some p → p < sel.fields.length)
+    (hjoined : ∀ n c p, dictGet sel.index (.q n c) = some p → n ∈ sel.joined)
+    (hL1 : ∀ l ∈ L, l.length = sel.fields.length)
+    (hL4 : ∀ l ∈ L, Witnessed db sel.index l)
+    (name : String) (rel : Rel) (hrel : db.rel? name = some rel) (hnew : name ∉ sel.joined)
+    (fields' : List Field) (rV : List Nat) (on : List String)
+    (hrVlen : rV.length = fields'.length)
+    (hrV : ∀ (i : Nat) (f : Field), fields'[i]? = some f → ∃ j, rV[i]? = some j ∧ rel.fieldIdx? f.name = some j)
+    (data' : List (List Cell))
+    (hdata : ∀ row' ∈ data', ∃ l ∈ L, ∃ r ∈ rel.rows, row' = l ++ pick rV r ∧
+      ∀ k ∈ on, ∀ p, dictGet sel.index (.u k) = some p →
+        ∃ j, rel.fieldIdx? k = some j ∧ (l.getD p noCell).val = (r.getD j noCell).val) :
+    SelInv db (mergeFields { sel with data := data' } name on fields') := by
+  have horigin := mergeFields_origin { sel with data := data' } name on fields'
+  simp only at horigin
+  have hb : ∀ key p, Origin1 sel.index name sel.fields.length fields' fields'.length key p →
+      p < sel.fields.length + fields'.length := by
+    intro key p o
+    rcases o with e | ⟨i, f, hi, _, hp, _⟩
+    · have := hbound key p e; omega
+    · omega
+  refine ⟨?_, ?_, ?_, ?_, ?_⟩
+  · intro h; simp [mergeFields] at h
+  · intro row' hrow'
+    simp only [mergeFields] at hrow' ⊢
+    obtain ⟨l, hl, r, _, e, _⟩ := hdata row' hrow'
+    rw [e]
+    simp [pick, hL1 l hl, hrVlen]
+  · intro key p h
+    simp only [mergeFields, List.length_append]
+    rcases horigin key p h with o | ⟨k, _, _, o⟩
+    · exact hb key p o
+    · exact hb _ p o
+  · intro n c p h
+    simp only [mergeFields]
+    rcases horigin (.q n c) p h with o | ⟨k, _, e, _⟩
+    · rcases o with e | ⟨i, f, _, _, _, hk⟩
+      · exact List.mem_append_left _ (hjoined n c p e)
+      · rcases hk with hk | hk
+        · cases hk
+        · cases hk; simp
+    · cases e; simp
+  · intro row' hrow'
+    simp only [mergeFields] at hrow' ⊢
+    obtain ⟨l, hl, r, hr, e, hagree⟩ := hdata row' hrow'
+    obtain ⟨w, hw⟩ := hL4 l hl
+    have hlen := hL1 l hl
+    refine ⟨fun n => if n = name then r else w n, ?_⟩
+    intro n c p h
+    -- a new column of `name`
+    have newcol : ∀ i f, i < fields'.length → fields'[i]? = some f → p = sel.fields.length + i →
+        (row'.getD p noCell).val = (cellOf rel r f.name).val := by
+      intro i f _ hf hp
+      obtain ⟨j, hj1, hj2⟩ := hrV i f hf
+      rw [e, hp, ← hlen, getD_append_right', pick_getD rV r i j hj1, cellOf_eq rel r f.name j hj2]
+    have old : ∀ key, dictGet sel.index key = some p → row'.getD p noCell = l.getD p noCell := by
+      intro key hk
+      rw [e, getD_append_left' _ _ _ (by rw [hlen]; exact hbound key p hk)]
+    rcases horigin (.q n c) p h with o | ⟨k, hk, ekey, o⟩
+    · rcases o with eold | ⟨i, f, hi, hf, hp, hkey⟩
+      · have hn : n ≠ name := fun en => hnew (en ▸ hjoined n c p eold)
+        obtain ⟨rel', h1, h2, h3⟩ := hw n c p eold
+        refine ⟨rel', h1, by simpa [hn] using h2, ?_⟩
+        simp only [hn, if_false]
+        rw [old _ eold, h3]
+      · rcases hkey with hkey | hkey
+        · cases hkey
+        · cases hkey
+          exact ⟨rel, hrel, by simpa using hr, by simpa using newcol i f hi hf hp⟩
+    · cases ekey
+      refine ⟨rel, hrel, by simpa using hr, ?_⟩
+      simp only [if_true]
+      rcases o with eold | ⟨i, f, hi, hf, hp, hkey⟩
+      · obtain ⟨j, hj, hv⟩ := hagree c hk p eold
+        rw [old _ eold, hv, cellOf_eq rel r c j hj]
+      · rcases hkey with hkey | hkey
+        · cases hkey
+          exact newcol i f hi hf hp
+        · cases hkey
+
+
+
+theorem filterMap_aligned {α β} (g : α → Option β) :
+    (fs : List α) → (∀ f ∈ fs, (g f).isSome) →
+    (fs.filterMap g).length = fs.length ∧
+    ∀ (i : Nat) (f : α), fs[i]? = some f → ∃ j, (fs.filterMap g)[i]? = some j ∧ g f = some j
+  | [], _ => by simp
+  | a :: fs, h => by
+    have ih := filterMap_aligned g fs (fun f hf => h f (by simp [hf]))
+    have ha := h a (by simp)
+    cases hga : g a with
+    | none => simp [hga] at ha
+    | some b =>
+      refine ⟨by simp [hga, ih.1], ?_⟩
+      intro i f hf
+      cases i with
+      | zero => simp at hf; subst hf; exact ⟨b, by simp [hga], hga⟩
+      | succ i =>
+        simp at hf
+        obtain ⟨j, h1, h2⟩ := ih.2 i f hf
+        exact ⟨j, by simpa [List.filterMap_cons, hga] using h1, h2⟩
+
+theorem field_of_indices (rel : Rel) (cols : List String) (indices : List Nat)
+    (hm : cols.mapM rel.fieldIdx? = some indices) (d : Field) :
+    ∀ (i : Nat) (f : Field), (indices.map (fun i => rel.fields.getD i d))[i]? = some f →
+      ∃ j, indices[i]? = some j ∧ rel.fieldIdx? f.name = some j := by
+  intro i f hf
+  simp only [List.getElem?_map, Option.map_eq_some_iff] at hf
+  obtain ⟨j, hj, hfj⟩ := hf
+  obtain ⟨col, _, hcol⟩ := mapM_some_getElem _ cols indices hm i j hj
+  have := fieldIdx_name rel col j hcol d
+  rw [hfj] at this
+  exact ⟨j, hj, by rw [this]; exact hcol⟩
+
+theorem agreeOn_spec (sel : Sel) (rel : Rel) (on : List String) (l r : List Cell)
+    (h : agreeOn sel rel on l r = true) :
+    ∀ k ∈ on, ∀ p, dictGet sel.index (.u k) = some p →
+      ∃ j, rel.fieldIdx? k = some j ∧ (l.getD p noCell).val = (r.getD j noCell).val := by
+  intro k hk p hp
+  simp only [agreeOn, List.all_eq_true] at h
+  have := h k hk
+  rw [hp] at this
+  cases hj : rel.fieldIdx? k with
+  | none => simp [hj] at this
+  | some j =>
+    simp only [hj, decide_eq_true_eq] at this
+    exact ⟨j, rfl, this⟩
+
+theorem nestedStep_inv (db : DB) (sel sel' : Sel) (j : String × List String) (hinv : SelInv db sel)
+    (h : nestedStep db sel j = .ok sel') : SelInv db sel' := by
+  unfold nestedStep at h
+  by_cases hc : sel.joined.contains j.1 = true
+  · simp only [hc, if_true] at h; cases h
+  · simp only [hc] at h
+    have hnew : j.1 ∉ sel.joined := by simpa using hc
+    cases hrel : db.rel? j.1 with
+    | none => simp only [hrel] at h; cases h
+    | some rel =>
+      simp only [hrel] at h
+      cases hm : j.2.mapM rel.fieldIdx? with
+      | none => simp only [hm] at h; cases h
+      | some indices =>
+        simp only [hm] at h
+        by_cases he : sel.joined.isEmpty = true
+        · simp only [he, if_true] at h
+          cases h
+          have hj : sel.joined = [] := by simpa using he
+          obtain ⟨hf, hi⟩ := hinv.fresh hj
+          refine merge_inv db sel [[]] hinv.bound hinv.joined (by simp [hf])
+            (by intro l _; exact ⟨fun _ => [], by intro n c p hp; rw [hi] at hp; simp [dictGet] at hp⟩)
+            j.1 rel hrel hnew _ indices [] (by simp) (field_of_indices rel j.2 indices hm _) _ ?_
+          intro row' hrow'
+          simp only [List.mem_map] at hrow'
+          obtain ⟨r, hr, e⟩ := hrow'
+          exact ⟨[], by simp, r, hr, by simp [e], by simp⟩
+        · simp only [he] at h
+          by_cases hon : (sharedKeys sel (indices.map (fun i => rel.fields.getD i ⟨"", .string, false⟩))).isEmpty = true
+          · simp only [hon, if_true] at h; cases h
+          · simp only [hon] at h
+            cases h
+            have hsome : ∀ f ∈ (indices.map (fun i => rel.fields.getD i ⟨"", .string, false⟩)).filter
+                (fun f => !(sharedKeys sel (indices.map (fun i => rel.fields.getD i ⟨"", .string, false⟩))).contains f.name),
+                (rel.fieldIdx? f.name).isSome := by
+              intro f hf
+              obtain ⟨i, hi⟩ := List.mem_iff_getElem?.mp (List.mem_filter.mp hf).1
+              obtain ⟨jx, _, hjx⟩ := field_of_indices rel j.2 indices hm _ i f hi
+              simp [hjx]
+            have hal := filterMap_aligned (fun f : Field => rel.fieldIdx? f.name) _ hsome
+            refine merge_inv db sel sel.data hinv.bound hinv.joined hinv.len hinv.wit
+              j.1 rel hrel hnew _ _ _ hal.1 hal.2 _ ?_
+            intro row' hrow'
+            simp only [List.mem_flatMap, List.mem_map, List.mem_filter] at hrow'
+            obtain ⟨l, hl, r, ⟨hr, hag⟩, e⟩ := hrow'
+            exact ⟨l, hl, r, hr, e.symm, agreeOn_spec sel rel _ l r hag⟩
+
+theorem nestedJoins_inv (db : DB) : (sel : Sel) → (js : List (String × List String)) → (sel' : Sel) →
+    SelInv db sel → nestedJoins db sel js = .ok sel' → SelInv db sel'
+  | sel, [], sel', hinv, h => by
+    simp only [nestedJoins] at h; cases h; exact hinv
+  | sel, j :: js, sel', hinv, h => by
+    simp only [nestedJoins] at h
+    split at h
+    · cases h
+    · rename_i s1 hs1
+      exact nestedJoins_inv db s1 js sel' (nestedStep_inv db sel s1 j hinv hs1) h
+
+theorem selInv_empty (db : DB) : SelInv db Sel.empty :=
+  ⟨fun _ => ⟨rfl, rfl⟩, by simp [Sel.empty], by simp [Sel.empty, dictGet], by simp [Sel.empty, dictGet],
+   by simp [Sel.empty]⟩
+
+
+
+/-- the cast value of column `qn` in the witness rows `w` (one stored row per relation) -/
+def valW (db : DB) (w : String → List Cell) (qn : QName) : Val :=
+  match db.rel? qn.1 with
+  | some rel => (cellOf rel (w qn.1) qn.2).val
+  | none => .none
+
+mutual
+/-- a resolved condition evaluated on witness rows -/
+def evalW (rx : List Char → List Char → Bool) (db : DB) (w : String → List Cell) : Cond QName → Bool
+  | .leaf op q l => evalLeaf rx op (valW db w q) l
+  | .not c => !evalW rx db w c
+  | .and cs => evalWAll rx db w cs
+  | .or cs => evalWAny rx db w cs
+def evalWAll (rx : List Char → List Char → Bool) (db : DB) (w : String → List Cell) : List (Cond QName) → Bool
+  | [] => true
+  | c :: cs => evalW rx db w c && evalWAll rx db w cs
+def evalWAny (rx : List Char → List Char → Bool) (db : DB) (w : String → List Cell) : List (Cond QName) → Bool
+  | [] => false
+  | c :: cs => evalW rx db w c || evalWAny rx db w cs
+end
+
+/-- `w` justifies `row` under `index` -/
+def WitBy (db : DB) (index : List (Key × Nat)) (row : List Cell) (w : String → List Cell) : Prop :=
+  ∀ n c p, dictGet index (.q n c) = some p →
+    ∃ rel, db.rel? n = some rel ∧ w n ∈ rel.rows ∧ (row.getD p noCell).val = (cellOf rel (w n) c).val
+
+theorem WitBy.val {db : DB} {index : List (Key × Nat)} {row : List Cell} {w : String → List Cell}
+    (H : WitBy db index row w) (q : QName) (p : Nat) (h : dictGet index (.q q.1 q.2) = some p) :
+    (row.getD p noCell).val = valW db w q := by
+  obtain ⟨rel, h1, _, h3⟩ := H q.1 q.2 p h
+  simp only [valW, h1]
+  exact h3
+
+mutual
+theorem evalCond_evalW (rx : List Char → List Char → Bool) (db : DB) (ix : List (Key × Nat))
+    (row : List Cell) (w : String → List Cell) (H : WitBy db ix row w) :
+    (c : Cond QName) → (ci : Cond Nat) → indexCond ix c = .ok ci → evalCond rx row ci = evalW rx db w c
+  | .leaf op q l, ci, h => by
+    simp only [indexCond] at h
+    split at h
+    · cases h
+    · rename_i i hi
+      cases h
+      simp only [evalCond, evalW, H.val q i hi]
+  | .not c, ci, h => by
+    simp only [indexCond] at h
+    split at h
+    · cases h
+    · rename_i c' hc
+      cases h
+      simp only [evalCond, evalW, evalCond_evalW rx db ix row w H c c' hc]
+  | .and cs, ci, h => by
+    simp only [indexCond] at h
+    split at h
+    · cases h
+    · rename_i cs' hc
+      cases h
+      simp only [evalCond, evalW, (evalConds_evalW rx db ix row w H cs cs' hc).1]
+  | .or cs, ci, h => by
+    simp only [indexCond] at h
+    split at h
+    · cases h
+    · rename_i cs' hc
+      cases h
+      simp only [evalCond, evalW, (evalConds_evalW rx db ix row w H cs cs' hc).2]
+theorem evalConds_evalW (rx : List Char → List Char → Bool) (db : DB) (ix : List (Key × Nat))
+    (row : List Cell) (w : String → List Cell) (H : WitBy db ix row w) :
+    (cs : List (Cond QName)) → (cis : List (Cond Nat)) → indexConds ix cs = .ok cis →
+    evalAll rx row cis = evalWAll rx db w cs ∧ evalAny rx row cis = evalWAny rx db w cs
+  | [], cis, h => by
+    simp only [indexConds] at h
+    cases h
+    simp [evalAll, evalAny, evalWAll, evalWAny]
+  | c :: cs, cis, h => by
+    simp only [indexConds] at h
+    split at h
+    · cases h
+    · rename_i c' hc
+      split at h
+      · cases h
+      · rename_i cs' hcs
+        cases h
+        have h1 := evalCond_evalW rx db ix row w H c c' hc
+        have h2 := evalConds_evalW rx db ix row w H cs cs' hcs
+        simp only [evalAll, evalAny, evalWAll, evalWAny, h1, h2.1, h2.2, and_self]
+end
+
+/-- `cells` are, position by position, cells carrying the cast values of the columns `proj` in
+the witness rows `w` -/
+def CellsOf (db : DB) (w : String → List Cell) (proj : List QName) (cells : List Cell) : Prop :=
+  cells.length = proj.length ∧
+  ∀ (i : Nat) (qn : QName), proj[i]? = some qn → ∃ cell, cells[i]? = some cell ∧
+    (∃ rel, db.rel? qn.1 = some rel ∧ w qn.1 ∈ rel.rows) ∧ cell.val = valW db w qn
+
+/-- every projected cell carries the cast value of its column in the witness rows -/
+theorem proj_witnessed (db : DB) (ix : List (Key × Nat)) (row : List Cell) (w : String → List Cell)
+    (H : WitBy db ix row w) :
+    (proj : List QName) → (pidx : List Nat) →
+    proj.mapM (fun q => dictGet ix (.q q.1 q.2)) = some pidx →
+    CellsOf db w proj (pick pidx row)
+  | [], pidx, h => by
+    simp at h; subst h; simp [pick, CellsOf]
+  | q :: proj, pidx, h => by
+    rw [List.mapM_cons] at h
+    cases hq : dictGet ix (.q q.1 q.2) with
+    | none => simp [hq] at h
+    | some i =>
+      cases hl : proj.mapM (fun q => dictGet ix (.q q.1 q.2)) with
+      | none => simp [hq, hl] at h
+      | some is =>
+        simp [hq, hl] at h
+        subst h
+        have ih := proj_witnessed db ix row w H proj is hl
+        simp only [pick, CellsOf, List.map_cons, List.length_cons] at ih ⊢
+        refine ⟨by omega, ?_⟩
+        intro k qn hk
+        cases k with
+        | zero =>
+          simp only [List.getElem?_cons_zero, Option.some.injEq] at hk ⊢
+          subst hk
+          obtain ⟨rel, h1, h2, _⟩ := H q.1 q.2 i hq
+          exact ⟨_, rfl, ⟨rel, h1, h2⟩, H.val q i hq⟩
+        | succ k =>
+          simp only [List.getElem?_cons_succ] at hk ⊢
+          exact ih.2 k qn hk
+
+theorem select_sound_aux (rx : List Char → List Char → Bool) (db : DB) (q : Query) (res : Result)
+    (h : select rx db q = .ok res) :
+    ∃ proj cond, resolveProj db q = .ok proj ∧ resolveQCond db q = .ok cond ∧
+      ∀ out ∈ res.rows, ∃ (w : String → List Cell) (cells : List Cell),
+        out = cells.map (·.raw) ∧
+        CellsOf db w proj cells ∧
+        (∀ c, cond = some c → evalW rx db w c = true) := by
+  obtain ⟨proj, cond, plan, sel, rows, _, hproj, hcond, _, hsel, hrows, hres⟩ := select_inv h
+  refine ⟨proj, cond, hproj, hcond, ?_⟩
+  rw [runJoins_eq_nestedJoins] at hsel
+  have hinv := nestedJoins_inv db Sel.empty plan.joins sel (selInv_empty db) hsel
+  rw [hres]
+  simp only
+  intro out hout
+  unfold finish at hrows
+  split at hrows
+  · cases hrows
+  · rename_i pidx hp
+    cases cond with
+    | none =>
+      simp only at hrows
+      cases hrows
+      simp only [List.mem_map] at hout
+      obtain ⟨row, hrow, e⟩ := hout
+      obtain ⟨w, hw⟩ := hinv.wit row hrow
+      exact ⟨w, pick pidx row, e.symm, proj_witnessed db sel.index row w hw proj pidx hp,
+        by intro c hc; cases hc⟩
+    | some c =>
+      simp only at hrows
+      split at hrows
+      · cases hrows
+      · rename_i ci hci
+        cases hrows
+        simp only [List.mem_map, List.mem_filter] at hout
+        obtain ⟨row, ⟨hrow, hev⟩, e⟩ := hout
+        obtain ⟨w, hw⟩ := hinv.wit row hrow
+        refine ⟨w, pick pidx row, e.symm, proj_witnessed db sel.index row w hw proj pidx hp, ?_⟩
+        intro c' hc'
+        cases hc'
+        rw [← evalCond_evalW rx db sel.index row w hw c ci hci]
+        exact hev
+
 end Verif.C11
